@@ -466,9 +466,17 @@ func (sc *ClusterScenario) healthy() bool {
 			return false
 		}
 	}
-	for _, st := range sc.Steps {
+	for i, st := range sc.Steps {
 		switch st.Op {
-		case "crash", "start", "link", "behave":
+		case "link":
+			// one link of a three-instance cluster cut before anything happens: every update still reaches every
+			// instance over the third one (each instance gossips what it merges for the first time), in two hops
+			// of less than half the peer timeout each, so gossip still delivers faster than the peer timeout
+			if i == 0 && sc.N == 3 && !st.Up && st.Dt == 0 && st.A != st.B {
+				continue
+			}
+			return false
+		case "crash", "start", "behave":
 			return false
 		case "post":
 			if st.Inst >= 0 {
@@ -493,6 +501,15 @@ func JudgeCluster(sc *ClusterScenario, tr *Trace) ([]pbt.Violation, ClusterStats
 		return vs, st
 	}
 	st.Healthy = sc.healthy()
+	if st.Healthy && len(sc.Steps) > 0 && sc.Steps[0].Op == "link" {
+		// oversized entries go to each peer directly and are not passed on by the peers that merge them: with a cut
+		// link they do not arrive, which is a fault that matters
+		for _, lw := range tr.LogWrites {
+			if lw.Oversize {
+				st.Healthy = false
+			}
+		}
+	}
 	st.Attempts = len(tr.Attempts)
 	cfg := &sc.Config
 	rt0 := time.Duration(cfg.ResolveTimeout) * time.Second
@@ -1182,6 +1199,11 @@ func GenClusterScenario(t *rapid.T, healthy bool) ClusterScenario {
 			st.Op = "noop"
 		}
 		sc.Steps = append(sc.Steps, st)
+	}
+	if healthy && sc.N == 3 && rapid.IntRange(0, 2).Draw(t, "relayOnly") == 0 {
+		a := rapid.IntRange(0, 2).Draw(t, "cutA")
+		b := (a + 1 + rapid.IntRange(0, 1).Draw(t, "cutB")) % 3
+		sc.Steps = append([]CStep{{Op: "link", A: a, B: b, Up: false, Inst: -1}}, sc.Steps...)
 	}
 	sc.Tail = sampled(t, "tail", 600, 1500, maxRI+maxGI+300)
 	return sc
